@@ -79,6 +79,7 @@ def tree_hash(repo=None):
     # the driver is part of the key: a rebuilt driver must not reuse old dumps
     for src in sorted(glob.glob(os.path.join(DRIVER_DIR, 'src', '*.rs'))):
         h.update(b'driver\0' + sha_file(src).encode())
+    h.update(b'facts\0' + sha_file(os.path.abspath(__file__)).encode())     # configuration selectors live in this file
     _tree_hash[repo] = h.hexdigest()[:24]
     return _tree_hash[repo]
 
@@ -130,6 +131,23 @@ def run_driver(cwd, selector, outdir, extra_env=None, wrapper_all=False, cargo_c
     return r
 
 
+def selector(config, repo):
+    """cargo arguments of a configuration.  K1 ("the impl crates with likely-subtags support") switches the feature on in *each* of the two impl
+    crates that declares it - code of unic-locale-impl under cfg(feature = "likelysubtags") is compiled only through that crate's own feature,
+    which merely forwarding unic-langid-impl/likelysubtags does not select (manifests read with cargo metadata, no build)."""
+    sel = list(CONFIGS[config][0])
+    if config == 'K1':
+        try:
+            r = subprocess.run(['cargo', 'metadata', '--no-deps', '--format-version', '1', '--offline'], cwd=repo, capture_output=True, text=True)
+            pk = {p['name']: p for p in json.loads(r.stdout)['packages']}
+            feats = ['%s/likelysubtags' % n for n in ('unic-langid-impl', 'unic-locale-impl') if n in pk and 'likelysubtags' in pk[n].get('features', {})]
+            if feats:
+                sel = ['-p', 'unic-langid-impl', '-p', 'unic-locale-impl', '--features', ','.join(feats)]
+        except Exception:
+            pass
+    return sel
+
+
 def dump(config, repo=None):
     """Returns the directory with the fact files of `config` for the current tree (dumping if needed)."""
     repo = repo or REPO
@@ -149,7 +167,7 @@ def dump(config, repo=None):
             return d
         shutil.rmtree(d, ignore_errors=True)
         t0 = time.time()
-        sel = CONFIGS[config][0]
+        sel = selector(config, repo)
         r = run_driver(repo, sel, d)
         if r.returncode != 0:
             shutil.rmtree(d, ignore_errors=True)
@@ -203,8 +221,10 @@ class Facts:
             if old is not None:
                 # same crate compiled twice (check + link for proc-macro consumers): facts must agree
                 if len(old.bodies) != len(c.bodies) or sorted(old.cfgs) != sorted(c.cfgs):
-                    # different feature sets of the same crate in one build: keep the richer one, remember both
-                    if len(c.bodies) < len(old.bodies):
+                    # different feature sets of the same crate in one build (the target build with the requested features and the host build the
+                    # proc-macro crates link): keep the one with more features switched on - the number of bodies is only a tie-breaker, a feature
+                    # may swap one cfg variant of a function for another without adding any
+                    if (len(set(c.cfgs)), len(c.bodies)) < (len(set(old.cfgs)), len(old.bodies)):
                         continue
             self.crates[c.name] = c
         self.bodies = {}
